@@ -19,7 +19,7 @@ class Collection(object):
     pass
 
 
-def draw_collection(ch, max_images=6, sizes=(60, 200, 300, 520, 700)):
+def draw_collection(ch, max_images=6, sizes=(60, 200, 300, 520, 700, 256, 512)):
     col = Collection()
     cw = sizes[ch.draw(len(sizes), kind="canvas_w")]
     chh = sizes[ch.draw(len(sizes), kind="canvas_h")]
